@@ -1,6 +1,7 @@
 package chk
 
 import (
+	"errors"
 	"fmt"
 	"strings"
 	"sync"
@@ -147,6 +148,51 @@ func TestC06Crash(t *testing.T) {
 		}
 		settle()
 		ds.SetHook(nil)
+		// boundary of the record encoding: an Error whose message is right at the 8192-byte string limit
+		// (the message fits or just does not; the log line derived from it does or does not). Such an event
+		// may fail to persist as a whole (DESIGN O1) - then it must leave the record exactly as it was; what
+		// it must never do is persist half of itself. It is the channel's last event in this case.
+		boundary := map[datatransfer.ChannelID]bool{}
+		if c.Index%2 == 0 {
+			var ch *chInfo
+			for _, cand := range chs { // a channel that can still take an Error
+				if v := f.view(cand.chid); v != nil && !isTerminal(v.Status) && !isCleanup(v.Status) {
+					ch = cand
+				}
+			}
+			if ch == nil { // all ended: a fresh one
+				rl := gen.Pick(c.Rng, allRoles)
+				chid, err := f.create(rl, peers[1], datatransfer.TransferID(c.Rng.Uint64()>>1|1<<62), gen.Cid(c.Rng), gen.Voucher(c.Rng, "VT0"))
+				if err != nil {
+					panic(err)
+				}
+				settle()
+				ch = &chInfo{chid: chid, role: rl, ref: []*doubles.StateView{f.view(chid)}}
+				chs = append(chs, ch)
+			}
+			n := 8140 + c.Rng.Intn(70)
+			if c.Rng.Intn(2) == 0 {
+				n = 8192 - c.Rng.Intn(30) // the message fits, a line that quotes it may not
+			}
+			m := strings.Repeat("x", n)
+			pre := f.view(ch.chid)
+			f.cs.Error(ch.chid, errors.New(m))
+			settle()
+			if post := f.view(ch.chid); pre != nil && post != nil {
+				switch {
+				case sameView(pre, post):
+					c.Count("boundary_error_left_record_unchanged", 1)
+				case post.Message == m:
+					c.Count("boundary_error_applied", 1)
+				}
+				if isTerminal(pre.Status) || isCleanup(pre.Status) {
+					c.Count("boundary_error_on_ended_channel", 1)
+				}
+			}
+			boundary[ch.chid] = true
+			trace = append(trace, fmt.Sprintf("Error(len %d)", len(m)))
+			c.Count("boundary_length_errors", 1)
+		}
 		qmu.Lock()
 		for _, q := range lateQs {
 			log := ds.Log()[:q.logLen]
@@ -253,7 +299,7 @@ func TestC06Crash(t *testing.T) {
 					continue
 				}
 				last[ch.chid] = j
-				if k == len(log) && j != len(ch.ref)-1 {
+				if k == len(log) && j != len(ch.ref)-1 && !boundary[ch.chid] {
 					c.Violation("C06", "final-state-lost", "after the last write the reopened state is ref#%d of %d", j, len(ch.ref)-1)
 				}
 				// GetByID must agree with the listing
